@@ -17,6 +17,7 @@ import (
 	"github.com/datastax/go-cassandra-native-protocol/compression/lz4"
 	"github.com/datastax/go-cassandra-native-protocol/compression/snappy"
 	"github.com/datastax/go-cassandra-native-protocol/frame"
+	"github.com/datastax/go-cassandra-native-protocol/message"
 	"github.com/datastax/go-cassandra-native-protocol/primitive"
 
 	"verif/internal/bridge"
@@ -114,6 +115,53 @@ func run(c *mon.Ctx) {
 	c.Set("shapes_enumerated", st.Shapes)
 	c.Set("random_cases", st.Random)
 	headerTable(c)
+	corners(c)
+}
+
+// corners: spec-conformant encodings that neither the library's nor the reference encoder ever produces,
+// assembled by hand from the spec text and checked against the reference strict decoder first.
+func corners(c *mon.Ctx) {
+	msgCodec := map[primitive.OpCode]message.Codec{}
+	for _, mc := range message.DefaultMessageCodecs {
+		msgCodec[mc.GetOpCode()] = mc
+	}
+	for _, v := range ref.Versions {
+		// RESULT Prepared whose variables metadata sets Global_tables_spec with a column count of 0:
+		// "<global_table_spec> is present if the Global_tables_spec is set in <flags>" (v4 §4.2.5.4; the same
+		// words in every version) — two strings follow although no column spec does.
+		var b []byte
+		b = append(b, 0, 0, 0, 4)     // kind = Prepared
+		b = append(b, 0, 2, 'a', 'b') // <id> [short bytes]
+		if v.HasResultMetadataID() {
+			b = append(b, 0, 1, 'r') // <result_metadata_id>
+		}
+		b = append(b, 0, 0, 0, 1, 0, 0, 0, 0) // flags = Global_tables_spec, columns_count = 0
+		if v.HasPkIndices() {
+			b = append(b, 0, 0, 0, 0) // pk_count = 0
+		}
+		b = append(b, 0, 1, 'k', 0, 1, 't')   // <global_table_spec>
+		b = append(b, 0, 0, 0, 4, 0, 0, 0, 0) // result metadata: No_metadata, columns_count = 0
+		key := "corner/RESULT.Prepared/global-table-spec-with-zero-columns/" + v.String()
+		if _, err := ref.DecodeBody(ref.Header{Version: v, Response: true, Opcode: ref.OpResult, Length: int32(len(b))}, b); err != nil {
+			c.Fatal("corner vector for %v is refused by the reference decoder: %v", v, err)
+		}
+		c.Eval(1)
+		rd := bytes.NewReader(b)
+		var m message.Message
+		var err error
+		if pan, pv := mon.Guard(func() { m, err = msgCodec[primitive.OpCodeResult].Decode(rd, primitive.ProtocolVersion(v)) }); pan {
+			c.Violation(key, map[string]interface{}{"version": v.String(), "bytes_hex": hex.EncodeToString(b), "panic": pv})
+			continue
+		}
+		p, isPrepared := m.(*message.PreparedResult)
+		if err != nil || rd.Len() != 0 || !isPrepared || (p.VariablesMetadata != nil && len(p.VariablesMetadata.Columns) != 0) || (p.ResultMetadata != nil && len(p.ResultMetadata.Columns) != 0) {
+			c.Violation(key, map[string]interface{}{"version": v.String(), "bytes_hex": hex.EncodeToString(b), "error": fmt.Sprint(err), "bytes_left": rd.Len(),
+				"decoded": fmt.Sprintf("%+v", m), "want": "a PreparedResult with id 'ab', no variable columns, no result columns, every byte consumed"})
+			continue
+		}
+		c.Count("corner_vectors_ok", 1)
+		c.Distinct(key)
+	}
 }
 
 // compressed judges the body compression formats of spec §5 at frame level, for legacy-framed versions:
